@@ -1,3 +1,222 @@
-namespace Genq.C01
-theorem C01_placeholder : True := trivial
-end Genq.C01
+/-
+C01 — every supported input is accepted and its output compiles.
+What is proved here are the three pieces of decision logic the property rests on (acceptance of a
+place visited twice, import aliases, the templates' view of a wrapped type); that whole programs
+are accepted and their output type-checks is decided per run on generated programs (compile leg).
+-/
+import Genq.Model.TypeMap
+import Genq.Model.Imports
+import Genq.Model.Conv
+import Genq.Props.C09
+
+namespace Genq.TypeMap
+
+/-- **C01_second_visit_accepted** — a place converted a second time (a field below an abstract
+    type is converted once per implementation) is recognised: after the first visit declared the
+    type, any later lookup or insertion for the same GraphQL type and selection reuses it and is
+    never reported as a conflict — whatever happened in between (checked accesses only) -/
+theorem C01_second_visit_accepted (m m' : TMap) (n : String) (d : Need) (between : List Req)
+    (h1 : (step m (.add n d)).2.resolved = true)
+    (hw : WritesFresh (step m (.add n d)).1 between)
+    (hr : run (step m (.add n d)).1 between = some m') :
+    (step m' (.get n d)).2 = .reuse ∧ (step m' (.add n d)).2 = .reuse := by
+  have hl := step_resolved_lookup m (.add n d) trivial h1
+  simp only [Req.name, Req.need] at hl
+  have hk := run_keeps between _ m' n d hw hr hl
+  have := (C09_reuse_only_same_need m' n d).1.2 hk
+  simp [step, this]
+
+end Genq.TypeMap
+
+namespace Genq.Imports
+
+theorem firstFree_not_used (used : List Str) (base : Str) : ∀ (fuel k : Nat) (a : Str),
+    firstFree used base fuel k = some a → used.contains a = false
+  | 0, _, _, h => by simp [firstFree] at h
+  | fuel + 1, k, a, h => by
+    simp only [firstFree] at h
+    generalize (if k < 2 then base else base ++ (toString k).toList) = cand at h
+    generalize (if k < 2 then 2 else k + 1) = k' at h
+    by_cases hc : used.contains cand = true
+    · rw [if_pos hc] at h; exact firstFree_not_used used base fuel k' a h
+    · rw [if_neg hc] at h
+      simp only [Option.some.injEq] at h
+      subst h
+      simpa using hc
+
+theorem aliasOf_none (s : St) (path : Str) (h : s.aliasOf path = none) : path ∉ s.imports.map (·.1) := by
+  simp only [St.aliasOf, Option.map_eq_none_iff, List.find?_eq_none] at h
+  intro hm
+  simp only [List.mem_map] at hm
+  obtain ⟨p, hp, he⟩ := hm
+  have := h p hp
+  simp [he] at this
+
+theorem addImportFor_inv (s s' : St) (path a : Str) (hi : Inv s) (hn : s.aliasOf path = none)
+    (h : addImportFor s path = some (s', a)) : Inv s' ∧ a ∉ s.used := by
+  unfold addImportFor at h
+  simp only [] at h
+  split at h
+  · cases h
+  · next a' hf =>
+    simp only [Option.some.injEq, Prod.mk.injEq] at h
+    obtain ⟨hs, ha⟩ := h
+    subst ha
+    have hnu : a' ∉ s.used := by
+      have := firstFree_not_used _ _ _ _ _ hf
+      simpa using this
+    refine ⟨?_, hnu⟩
+    subst hs
+    obtain ⟨h1, h2, h3⟩ := hi
+    refine ⟨?_, ?_, ?_⟩
+    · simp only [List.map_cons, List.nodup_cons]
+      refine ⟨?_, h1⟩
+      intro hm
+      simp only [List.mem_map] at hm
+      obtain ⟨p, hp, he⟩ := hm
+      exact hnu (he ▸ h2 p hp)
+    · intro p hp
+      simp only [List.mem_cons] at hp ⊢
+      rcases hp with rfl | hp
+      · exact Or.inl rfl
+      · exact Or.inr (h2 p hp)
+    · simp only [List.map_cons, List.nodup_cons]
+      exact ⟨aliasOf_none s path hn, h3⟩
+
+theorem ref_inv (own : Str) (s : St) (name : Str) (hi : Inv s) : Inv (ref own s name).1 := by
+  unfold ref
+  split
+  · exact hi
+  · simp only []
+    split
+    · split <;> exact hi
+    · split
+      · exact hi
+      · split
+        · exact hi
+        · next hn =>
+          split
+          · exact hi
+          · next s' a ha => exact (addImportFor_inv s s' _ a hi hn ha).1
+
+theorem refs_inv (own : Str) : ∀ (names : List Str) (s : St), Inv s → Inv (refs own s names).1
+  | [], _, hi => hi
+  | n :: ns, s, hi => by
+    simp only [refs]
+    exact refs_inv own ns _ (ref_inv own s n hi)
+
+theorem nodup_map_inj {α β : Type} (f : α → β) : ∀ (l : List α), (l.map f).Nodup →
+    ∀ x ∈ l, ∀ y ∈ l, f x = f y → x = y
+  | [], _, x, hx, _, _, _ => by cases hx
+  | a :: l, h, x, hx, y, hy, he => by
+    simp only [List.map_cons, List.nodup_cons, List.mem_map, not_exists, not_and] at h
+    simp only [List.mem_cons] at hx hy
+    rcases hx with rfl | hx <;> rcases hy with rfl | hy
+    · rfl
+    · exact absurd he.symm (h.1 y hy)
+    · exact absurd he (h.1 x hx)
+    · exact nodup_map_inj f l h.2 x hx y hy he
+
+/-- **C01_import_aliases_distinct** — whatever sequence of Go type names the generator resolves,
+    no two imported packages ever share an alias and no package is imported twice, so the
+    import clause never redeclares a name -/
+theorem C01_import_aliases_distinct (own : Str) (names : List Str) :
+    let s := (refs own St.empty names).1
+    (∀ p ∈ s.imports, ∀ q ∈ s.imports, p.2 = q.2 → p = q) ∧
+    (∀ p ∈ s.imports, ∀ q ∈ s.imports, p.1 = q.1 → p = q) := by
+  have hi : Inv (refs own St.empty names).1 := refs_inv own names St.empty (by simp [Inv, St.empty])
+  exact ⟨nodup_map_inj _ _ hi.1, nodup_map_inj _ _ hi.2.2⟩
+
+/-- **C01_reference_uses_declared_alias** — a reference to a type of an already imported package
+    is spelled with exactly the alias under which that package is imported, and resolving it
+    changes nothing -/
+theorem C01_reference_uses_declared_alias (own : Str) (s : St) (name pre rest pkg loc a : Str)
+    (hsp : ' ' ∉ name)
+    (hp : splitPrefix (name.length + 1) name = (pre, rest))
+    (hd : splitLastDot rest = some (pkg, loc)) (ho : (pkg == own) = false)
+    (ha : s.aliasOf pkg = some a) :
+    ref own s name = (s, .ok (pre ++ a ++ '.' :: loc)) := by
+  unfold ref
+  simp [hsp, hp, hd, ho, ha]
+
+theorem addImportFor_keeps_alias (s s' : St) (p pkg a a' : Str) (ha : s.aliasOf pkg = some a)
+    (hn : s.aliasOf p = none) (hadd : addImportFor s p = some (s', a')) : s'.aliasOf pkg = some a := by
+  unfold addImportFor at hadd
+  simp only [] at hadd
+  split at hadd
+  · cases hadd
+  · simp only [Option.some.injEq, Prod.mk.injEq] at hadd
+    obtain ⟨hs, _⟩ := hadd
+    subst hs
+    have hne : (p == pkg) = false := by
+      by_cases he : p = pkg
+      · subst he; rw [ha] at hn; cases hn
+      · simpa using he
+    simp only [St.aliasOf, List.find?, hne] at ha ⊢
+    exact ha
+
+/-- an alias, once given, is kept: later references never re-import or rename a package -/
+theorem C01_alias_stable (own : Str) (s : St) (name pkg a : Str)
+    (ha : s.aliasOf pkg = some a) : (ref own s name).1.aliasOf pkg = some a := by
+  unfold ref
+  repeat' split
+  all_goals first
+    | exact ha
+    | exact addImportFor_keeps_alias _ _ _ _ _ _ ha ‹_› ‹_›
+
+-- non-vacuity / sanity: two packages with the same base name get aliases sup and sup2
+example : ((refs "me".toList St.empty ["a/sup.T".toList, "[]*b/sup.U".toList, "a/sup.V".toList, "me.W".toList, "string".toList]).2)
+    = [.ok "sup.T".toList, .ok "[]*sup2.U".toList, .ok "sup.V".toList, .ok "W".toList, .ok "string".toList] := by decide
+
+end Genq.Imports
+
+namespace Genq.Conv
+
+/-- the shapes convertType produces: slices, then at most one pointer or generic wrapper, then the
+    named type -/
+def GT.leaf : GT → Bool
+  | .base | .opaque _ => true
+  | _ => false
+
+def GT.produced : GT → Bool
+  | .slice e => e.produced
+  | .ptr e => e.leaf
+  | .generic e => e.leaf
+  | t => t.leaf
+
+def GT.hasGeneric : GT → Bool
+  | .slice e => e.hasGeneric
+  | .ptr e => e.hasGeneric
+  | .generic _ => true
+  | _ => false
+
+/-- **C01_template_view_complete** — the (un)marshal templates describe a field's type by
+    SliceDepth, IsPointer and Unwrap alone; for every type convertType produces without the
+    generic-optional wrapper those three items determine the type exactly, so the code the
+    templates print has the field's own type -/
+theorem C01_template_view_complete : ∀ (t : GT), t.produced = true → t.hasGeneric = false →
+    rebuild t.sliceDepth t.isPointer t.unwrap = t
+  | .base, _, _ => by simp [rebuild, GT.sliceDepth, GT.isPointer, GT.afterSlices, GT.unwrap]
+  | .opaque _, _, _ => by simp [rebuild, GT.sliceDepth, GT.isPointer, GT.afterSlices, GT.unwrap]
+  | .ptr e, hp, _ => by
+    cases e <;> simp_all [rebuild, GT.sliceDepth, GT.isPointer, GT.afterSlices, GT.unwrap, GT.produced, GT.leaf]
+  | .generic e, _, hg => by simp [GT.hasGeneric] at hg
+  | .slice e, hp, hg => by
+    have ih := C01_template_view_complete e (by simpa [GT.produced] using hp) (by simpa [GT.hasGeneric] using hg)
+    simp only [GT.sliceDepth, rebuild, GT.unwrap, GT.slice.injEq]
+    have : (GT.slice e).isPointer = e.isPointer := by simp [GT.isPointer, GT.afterSlices]
+    rw [this]; exact ih
+
+/-- **C01_tie_template_views** (regenerated from /repo on every run) — the only things the
+    (un)marshal templates ask of a field's Go type are these -/
+theorem C01_tie_template_views :
+    Extracted.templateTypeViews = ["IsPointer", "Reference", "SliceDepth", "Unwrap"] ∧
+    Extracted.importTableWrites = [("addImportFor", "write")] := by decide
+
+/-- with the generic-optional wrapper the three items lose the wrapper: the templates then print
+    code for a different type than the field has (finding F-01: does not compile) -/
+theorem C01_generic_breaks_view :
+    rebuild (GT.generic .base).sliceDepth (GT.generic .base).isPointer (GT.generic .base).unwrap ≠ GT.generic .base := by
+  decide
+
+end Genq.Conv
